@@ -1097,7 +1097,7 @@ class Exec:
             for (exc, name, when, posts, fields, tags, iff) in rclauses:
                 if iff:
                     self.assume(Not(when))
-            for name, term, tags in con.eval_ensures(c):
+            for name, term, tags in con.eval_ensures(c, for_caller=True):
                 self.assume(term)
             self.call_results[short] = result
             return result
